@@ -132,3 +132,44 @@ def dec_term(ctx, n):
 DEC_RE = tm.register_re('(re.union (str.to_re "0") (re.++ (re.range "1" "9") (re.* (re.range "0" "9"))))', r'0|[1-9][0-9]*')
 
 REAL_FUNS = {'dec': lambda n: str(n), 'undec': lambda s: int(s), 'upper': lambda s: s.upper()}
+
+
+class OpaqueVal:
+    """An arbitrary python object about which nothing is known (result of an opaque callable)."""
+
+    def __init__(self, name):
+        self.name = name
+
+    def __repr__(self):
+        return '<opaque %s>' % self.name
+
+    def __deepcopy__(self, memo):
+        return self
+
+
+class OpaqueFn:
+    """A callable about which only its possible outcomes are known: it returns an opaque value or raises
+    one of `raises` (exception factories).  Calls are recorded (ghost) in `calls`."""
+
+    def __init__(self, name, raises=(), result=None):
+        self.name, self.raises, self.result = name, list(raises), result
+        self.calls = []        # [(args, kwargs, outcome)]
+
+    def __repr__(self):
+        return '<opaque fn %s>' % self.name
+
+    def __deepcopy__(self, memo):
+        return self
+
+    def __call__(self, *a, **k):
+        raise RuntimeError('engine value')
+
+
+class ArrVal:
+    """np.asarray(nested list, object): a small object array with known (concrete) shape."""
+
+    def __init__(self, rows):
+        self.rows = rows
+
+    def __repr__(self):
+        return '<ArrVal %r>' % (self.rows,)
